@@ -34,6 +34,10 @@ end of the file).
   `makeInfinite()`); now `*_intersectsBox_iff` holds at full strength for all boxes.
 * the out-parameter overload `transform(box, m, result)` left `result` untouched for empty / infinite input and its
   projective path extended the caller's old `result`; now `transformOut_eq` holds for every input.
+* (strengthening round, /repo f7a3ec4) the GENERIC `Box<V>::intersects(point)` reported a point with a NaN coordinate inside the box
+  while the Vec2 / Vec3 specialisations and `Interval` reported it outside; NaN is not an element of a linear order, so this is
+  decided by the harness law `box-intersects-point:nan-coordinate` only (the regenerated `Gen.Box4.intersectsPoint` changed shape
+  and `Box4.intersectsPoint_iff` re-elaborated unchanged).
 The harness laws `box-intersects:empty-vs-containing`, `interval-intersects:empty-vs-containing`,
 `transform-outparam:{empty-input-leaves-result,infinite-input-leaves-result,projective-extends-old-result}` stay in the
 check at full strength and fire again if a defect returns.
